@@ -137,6 +137,24 @@ Theorem C01_success_redirect_is_positive :
 Proof. exact success_redirect_is_positive. Qed.
 Print Assumptions C01_success_redirect_is_positive.
 
+(** since fix: 6c5864d the loader accepts redirect handlers with a code in 300..399
+    (or none = 302) only: the redirect-code hypothesis holds for every loaded
+    redirect handler, and the witness above cannot be loaded any more *)
+Theorem C01_loader_redirect_never_success : forall h,
+  loader_created h -> good_cond (e_if h) ->
+  match e_kind h with EhFails e => good_err e | EhPanics v => good_panic v | _ => True end ->
+  good_eh h /\
+  match e_kind h with
+  | EhReal (MRedirect code _) => 300 <= redirect_status code <= 399 /\ success_like (redirect_status code) = false
+  | _ => True
+  end.
+Proof. exact loader_redirect_never_success. Qed.
+Print Assumptions C01_loader_redirect_never_success.
+
+Theorem C01_success_redirect_rule_not_loadable : ~ Forall loader_created (eh redirect200_rule).
+Proof. exact success_redirect_rule_not_loadable. Qed.
+Print Assumptions C01_success_redirect_rule_not_loadable.
+
 (** non-vacuity *)
 Example C01_nonvacuous :
   sane plain_config (ex_rule Ok) /\ pipeline_succeeded (ex_rule Ok) /\ quiet (ex_rule Ok) /\
